@@ -36,7 +36,7 @@ BLOCKING = {"F15", "RE"}          # open findings: C07-F1, C07-F2
 def norm(m, view="C07"):
     """Canonical comparison form of a flat model (either side), restricted to what the property
     observes.  C07: variables in order with type / prefixes / dimensions, and the instance
-    equations in order.  C08: variables in order with attributes / value, and the binding
+    equations and the initial equations in order.  C08: variables in order with attributes / value, and the binding
     equations (left side a symbol) in order."""
     if not m.get("ok"):
         return {"ok": False}
@@ -47,8 +47,11 @@ def norm(m, view="C07"):
         else:
             a = {k: e for k, e in v["attrs"].items() if not (k == "fixed" and e == ["bool", False])}
             vs.append(dict(name=v["name"], attrs=a, value=v["value"]))
-    eqs = [list(e) for e in m["eqs"] if (e[0][0] == "sym") == (view == "C08")]
-    return {"ok": True, "vars": vs, "eqs": eqs}
+    eqs = [list(e) for e in m["eqs"] if a05.is_sym_eq(e) == (view == "C08")]
+    out = {"ok": True, "vars": vs, "eqs": eqs}
+    if view == "C07":
+        out["ieqs"] = [list(e) for e in m.get("ieqs", [])]
+    return out
 
 
 def nontrivial(lib, target):
@@ -111,7 +114,8 @@ def check_case(ctx, case, drv, stream="main"):
         o = norm(obs)
         if model != o:
             what = "status" if model["ok"] != o["ok"] else (
-                "variables" if model["vars"] != o["vars"] else "equations")
+                "variables" if model["vars"] != o["vars"] else
+                "equations" if model["eqs"] != o["eqs"] else "initial-equations")
             ctx.disagreement("flatten:" + what, rep, model, o)
         ctx.count("model-" + ("ok" if model["ok"] else "rejects"))
     return obs
